@@ -30,13 +30,23 @@ Generation == {"known", "unknown"}
 Registrant == {"absent", "v4", "v6", "v4mapped"}
 Source     == {"unspecified", "api", "detector", "prescan", "bdapi", "dns", "bddns"}
 Covert     == {"ok", "blocked", "malformed", "absent"}
+\* registrar overrides (RegistrationResponse attached by a registrar): none; "same" = an IPv4 address for the IPv4 half and
+\* an IPv6 address for the IPv6 half; "cross" = the Ipv6Addr field holds an IPv4 address (4-byte or IPv4-mapped: the wire
+\* format does not stop a registrar from putting one there), so the "v6" half ends up with an IPv4 phantom
+Override   == {"none", "same", "cross"}
+RegistrarSources == Source \ {"detector", "prescan"}   \* the detector and peer stations never attach a registration response
 
-Rows == [payload : Payload, transport : Transport, params : Params, gen : Generation, c4 : BOOLEAN, c6 : BOOLEAN,
-         registrant : Registrant, source : Source, prescanned : BOOLEAN, covert : Covert,
+RowsOf(src, ovr) ==
+        [payload : Payload, transport : Transport, params : Params, gen : Generation, c4 : BOOLEAN, c6 : BOOLEAN,
+         registrant : Registrant, source : src, prescanned : BOOLEAN, covert : Covert,
          s4 : BOOLEAN, s6 : BOOLEAN,          \* station: families enabled
-         blocked4 : BOOLEAN, blocked6 : BOOLEAN, \* the phantom derived for this family is on the station's phantom blocklist
+         blocked4 : BOOLEAN, blocked6 : BOOLEAN, \* the phantom this half will use is on the station's phantom blocklist
          share : BOOLEAN,                      \* share-over-API enabled
-         live : BOOLEAN]                       \* what the liveness probe of the IPv4 phantom would answer
+         live : BOOLEAN,                       \* what the liveness probe of an IPv4 phantom would answer
+         ovr : ovr]
+RowsPlain == RowsOf(Source, {"none"})
+RowsOvr   == RowsOf(RegistrarSources, Override \ {"none"})
+Rows == RowsPlain \cup RowsOvr
 
 CONSTANT Mutant   \* "none", or a deliberately broken transcription (non-vacuity of the invariants)
 
@@ -47,16 +57,18 @@ RegistrantIsV4(r) == r.registrant \in {"v4", "v4mapped"}
 Blocked(r, f) == IF f = "v4" THEN r.blocked4 ELSE r.blocked6
 ClientWants(r, f) == IF f = "v4" THEN r.c4 ELSE r.c6
 StationHas(r, f) == IF f = "v4" THEN r.s4 ELSE r.s6
+\* the address family of the phantom that half f of the message will actually use
+Eff(r, f) == IF f = "v6" /\ r.ovr = "cross" THEN "v4" ELSE f
 
 \* ------------------------- declarative statement -------------------------
 Complete(r) == r.payload = "present" /\ r.params # "invalid"
-ProbeRequired(r, f) == f = "v4" /\ ~r.prescanned
+ProbeRequired(r, f) == Eff(r, f) = "v4" /\ ~r.prescanned
 Admit(r, f) ==
   /\ Complete(r)
   /\ r.transport = "enabled"
   /\ r.gen = "known"
   /\ ClientWants(r, f) /\ StationHas(r, f)
-  /\ (f = "v4" => RegistrantIsV4(r))          \* an IPv4 phantom needs an IPv4 registrant to match on
+  /\ (Eff(r, f) = "v4" => RegistrantIsV4(r))  \* an IPv4 phantom needs an IPv4 registrant to match on
   /\ ~Blocked(r, f)
   /\ r.covert = "ok"
   /\ (ProbeRequired(r, f) => ~r.live)
@@ -67,7 +79,10 @@ HalfAttempted(r, f) ==
   /\ r.payload = "present"
   /\ ClientWants(r, f) /\ StationHas(r, f)
   /\ (f = "v4" => RegistrantIsV4(r))
-ConstructionError(r) == r.gen = "unknown" \/ r.transport # "enabled" \/ r.params = "invalid"
+\* NewRegistrationC2SWrapper applies the override and THEN refuses an IPv4 phantom for a non-IPv4 registrant
+FamilyError(r) == /\ Mutant # "family_before_override"
+                  /\ HalfAttempted(r, "v6") /\ Eff(r, "v6") = "v4" /\ ~RegistrantIsV4(r)
+ConstructionError(r) == r.gen = "unknown" \/ r.transport # "enabled" \/ r.params = "invalid" \/ FamilyError(r)
 Parsed(r) == IF (\E f \in Fam : HalfAttempted(r, f)) /\ ConstructionError(r) THEN {}
              ELSE {f \in Fam : HalfAttempted(r, f)}
 
@@ -82,12 +97,12 @@ ReachedProbe(r, f) == Stage(r, f) \in {"live", "blocklisted-after-share", "added
 ReachedShare(r, f) == Stage(r, f) \in {"blocklisted-after-share", "added"}
 \* GenerateC2SWrapper: the IPv6 registration of a client that also asked for IPv4 is not shared (the IPv4 one is)
 Shares(r, f) == /\ ReachedShare(r, f) /\ r.source = "detector" /\ r.share
-                /\ ~(f = "v6" /\ r.c4)
+                /\ ~(Eff(r, f) = "v6" /\ r.c4)
 
 Code(r) == [visible   |-> {f \in Parsed(r) : Stage(r, f) = "added"},
             announced |-> Cardinality({f \in Parsed(r) : Stage(r, f) = "added"}),
             tracked   |-> {f \in Parsed(r) : Stage(r, f) # "blocklisted"},
-            probes    |-> Cardinality({f \in Parsed(r) : f = "v4" /\ ~r.prescanned /\ ReachedProbe(r, f)}),
+            probes    |-> Cardinality({f \in Parsed(r) : Eff(r, f) = "v4" /\ ~r.prescanned /\ ReachedProbe(r, f)}),
             shares    |-> Cardinality({f \in Parsed(r) : Shares(r, f)})]
 
 Init == row \in Rows /\ out = [none |-> TRUE] /\ done = FALSE
@@ -97,10 +112,13 @@ Spec == Init /\ [][Next]_vars
 \* ------------------------------ properties ------------------------------
 \* usable (and announced) iff every admission condition holds
 AgreesWithStatement == done => (out.visible = {f \in Fam : Admit(row, f)} /\ out.announced = Cardinality(out.visible))
-\* a probe is sent only when one is required, and at most one per message
-ProbeOnlyWhenRequired == done => (out.probes <= 1 /\ (out.probes = 1 => (~row.prescanned /\ "v4" \in Parsed(row))))
+\* a probe is sent only when one is required, and at most one per IPv4 phantom of the message
+ProbeOnlyWhenRequired == done => /\ out.probes <= Cardinality({f \in Parsed(row) : Eff(row, f) = "v4"})
+                                 /\ (out.probes >= 1 => ~row.prescanned)
+                                 /\ (row.ovr # "cross" => out.probes <= 1)
 \* never probed when the registration is dropped before the probe stage
-NoWastedProbe == done => (out.probes = 1 => (row.covert = "ok" /\ (row.source = "detector" \/ ~row.blocked4)))
+NoWastedProbe == done => (out.probes >= 1 => /\ row.covert = "ok"
+                                             /\ \E f \in Parsed(row) : Eff(row, f) = "v4" /\ (row.source = "detector" \/ ~Blocked(row, f)))
 \* sharing: at most once per message, detector registrations only, only when enabled, only after the probe was passed
 ShareRules == done => /\ out.shares <= 1
                       /\ (out.shares = 1 => (row.source = "detector" /\ row.share))
@@ -121,7 +139,7 @@ Necessary == done => \A f \in out.visible :
                /\ f \notin Code(IF f = "v4" THEN [row EXCEPT !.c4 = FALSE] ELSE [row EXCEPT !.c6 = FALSE]).visible
                /\ f \notin Code(IF f = "v4" THEN [row EXCEPT !.s4 = FALSE] ELSE [row EXCEPT !.s6 = FALSE]).visible
                /\ f \notin Code(IF f = "v4" THEN [row EXCEPT !.blocked4 = TRUE] ELSE [row EXCEPT !.blocked6 = TRUE]).visible
-               /\ (f = "v4" => f \notin Code([row EXCEPT !.registrant = "v6"]).visible)
-               /\ (f = "v4" => f \notin Code([row EXCEPT !.registrant = "absent"]).visible)
-               /\ (f = "v4" /\ ~row.prescanned => f \notin Code([row EXCEPT !.live = TRUE]).visible)
+               /\ (Eff(row, f) = "v4" => f \notin Code([row EXCEPT !.registrant = "v6"]).visible)
+               /\ (Eff(row, f) = "v4" => f \notin Code([row EXCEPT !.registrant = "absent"]).visible)
+               /\ (Eff(row, f) = "v4" /\ ~row.prescanned => f \notin Code([row EXCEPT !.live = TRUE]).visible)
 =============================================================================
